@@ -471,6 +471,7 @@ VERDICTS = {1: "the parse of the implementation's SQL does not render back to it
             3: "model tree and implementation SQL select different rows on this database",
             4: "rows selected differ from the Prometheus meaning of the matchers",
             5: "absent-label", 7: "more-than-8-matchers", 8: "no-matcher",
+            10: "step-bucket-off-grid", 11: "range-filter-off-grid", 12: "step-bucket-staleness-edge",
             9: "list-function reading and interpreter disagree on the model tree"}
 
 
@@ -661,14 +662,15 @@ def run_shard(ck, cases, idx):
 
     # ---- 3. the implementation's SQL under the reference interpreter
     bad = {k: [] for k in (1, 2, 3, 4, 9)}
-    explained = {5: 0, 7: 0, 8: 0}
+    explained = {5: 0, 7: 0, 8: 0, 10: 0, 11: 0, 12: 0}
     for cid, v in list(res["sem"].items()) + list(res["psem"].items()):
         code = int(v[0])
         if code in bad:
             bad[code].append(byid[cid])
         elif code in explained:
             explained[code] += 1
-            fid = {5: "absent-label-not-selected", 7: "more-than-8-matchers", 8: None}[code]
+            fid = {5: "absent-label-not-selected", 7: "more-than-8-matchers", 8: None, 10: "step-bucket-off-grid",
+                   11: "range-filter-off-grid", 12: "step-bucket-staleness-edge"}[code]
             if byid[cid]["kind"] == "prof" and fid:
                 fid = "prof-" + fid
             if fid and fid in known:
@@ -686,7 +688,7 @@ def run_shard(ck, cases, idx):
                   "case ids: %s" % [c["id"] for c in bad[3][:10]])
     ck.obligation("rows / fingerprints selected by the implementation's SQL = Prometheus / Pyroscope meaning of the matchers on the generated database (outside the recorded causes)",
                   not bad[4], "case ids: %s" % [c["id"] for c in bad[4][:10]])
-    ck.obligation("list-function reading prof_fp_sel = interpreter on the model's profile selector tree", not bad[9],
+    ck.obligation("list-function readings (prof_fp_sel, bucket_series, range_filter) = interpreter on the statements", not bad[9],
                   "case ids: %s" % [c["id"] for c in bad[9][:10]])
     for code in (4, 3, 9):
         if bad[code]:
